@@ -93,12 +93,12 @@ def c13(ctx):
 
 # ------------------------------------------------------------------ C15
 SHUF_INV = ["Total", "AcceptImpliesPerm", "Refines", "HonestAccepted", "FamiliesBite", "Designed"]
-OUT_F = ["replaceX", "replace", "rerand", "scal", "dup", "sum", "swapXY", "swapX"]
+OUT_F = ["replaceX", "replaceY", "replace", "rerand", "scal", "dup", "sum", "swapXY", "swapX"]
 PRF_F = ["none", "mutate", "trunc", "splice", "param", "input"]
 SHUF_FAMS = {
     "pair": OUT_F + PRF_F + ["honestlib", "detach", "kshift"],
     "seq": OUT_F + PRF_F + ["seqperm", "kshift"],
-    "biffle": OUT_F + PRF_F,
+    "biffle": OUT_F + PRF_F + ["comptamper"],
     "simple": ["none", "replace", "scal", "dup", "sum", "mutate", "trunc", "splice", "param"],
 }
 
@@ -155,11 +155,12 @@ def c15(ctx):
 
 
 # ------------------------------------------------------------------ C14
-SIG_INV = ["Total", "AcceptIffClean", "OtherBranchesIrrelevant", "FalsLocal", "ItemCount", "CommitFirst", "Shape"]
+SIG_INV = ["Total", "AcceptIffClean", "OtherBranchesIrrelevant", "FalsLocal", "FaultNeverAccepted", "ItemCount", "CommitFirst", "Shape"]
 
 
-def sig_consts(mode, br, rep, term, ns, nb, terms, wraps=("min", "full")):
-    return {"MaxBr": br, "MaxRep": rep, "MaxTerm": term, "NS": ns, "NB": nb, "MaxTerms": terms, "Mode": mode, "Wraps": list(wraps)}
+def sig_consts(mode, br, rep, term, ns, nb, terms, wraps=("min", "full"), faults=(0,)):
+    return {"MaxBr": br, "MaxRep": rep, "MaxTerm": term, "NS": ns, "NB": nb, "MaxTerms": terms, "Mode": mode, "Wraps": list(wraps),
+            "Faults": list(faults)}
 
 
 SIGTRACE_CFG = """SPECIFICATION TraceSpec
@@ -172,6 +173,7 @@ CONSTANTS
   MaxTerms = 48
   Mode = "sat"
   Wraps = {"min"}
+  Faults = {0}
 CONSTRAINT Mark
 POSTCONDITION TraceAccepted
 CHECK_DEADLOCK FALSE
@@ -198,6 +200,10 @@ def c14(ctx):
         sim("sat", 60 if q else 800, "C14_sim_sat"),
         sim("mut", 60 if q else 800, "C14_sim_mut"),
     ]
+    # interactive protocol under a transport fault at round 1, 2 or 3 (honest and falsified provers): a proof that was
+    # not completely verified is never reported as accepted
+    jobs.append(lambda: gen(ctx, "Sigma", sig_consts("sat", 2, 2, 2, 2, 2, 3 if q else 4, mini, faults=(1, 2, 3)), "C14_fault",
+                            invariants=SIG_INV + ["Emit"], workers=W))
     if not q:   # trivial Or / And nodes kept ("full" wrapping) on the smaller universes
         jobs += [ex("sat", 5, both, "C14_sat_wraps"), ex("mut", 4, both, "C14_mut_wraps")]
     outs = par(ctx, jobs)
@@ -207,7 +213,8 @@ def c14(ctx):
     tr2 = os.path.join(ctx.tmp, "sigma_ctx_calls_sim.ndjson")
     ctx.run_vh("sigma", ["-in", outs[2], "-max", 800 if q else 12000, "-deniable", 2, "-trace", tr2, "-tracemax", 60 if q else 600], binary=b)
     ctx.run_vh("sigma", ["-in", outs[3], "-max", 800 if q else 12000, "-deniable", 2], binary=b)
-    for bh in outs[4:]:
+    ctx.run_vh("sigma", ["-in", outs[4], "-max", 1500 if q else 8000, "-deniable", 1], binary=b)
+    for bh in outs[5:]:
         ctx.run_vh("sigma", ["-in", bh, "-max", 12000, "-deniable", 3], binary=b)
     if ctx.cov["skipped"].get("deniable-session-timeout"):
         raise Broken("%d deniable clique sessions did not terminate within 5 minutes" % ctx.cov["skipped"]["deniable-session-timeout"])
@@ -239,10 +246,12 @@ def c14(ctx):
         "case = (predicate tree as data, chosen branch, trivial-node wrapping, falsification | tampering); TLC BFS enumerates every canonical "
         "tree (variables and bases introduced in increasing order) up to 2 Or-branches x 2 And-terms x 2 terms per Rep over 2 scalar variables and "
         "2 bases (quick: <= 4 terms in total) x every branch choice x {nothing, prover's secret x_v wrong, public point of a Rep unrelated}; for trees "
-        "with <= 3 (thorough 5) terms x {every transcript item altered, every truncation at an item boundary, other protocol name, verifier's base / "
+        "with <= 3 (thorough 5) terms x {every transcript item altered, every truncation at an item boundary and one byte into / one byte short of "
+        "every item, an honest proof ending in 0x00 bytes cut by exactly those bytes, two no-knowledge forgers, other protocol name, verifier's base / "
         "point altered, verifier's predicate with another base / a term, And-term or branch dropped / a branch added / And-terms or branches "
         "exchanged}; shapes up to 4 x 4 x 3 over 4 variables and 4 bases by -simulate. Each case is replayed with proof.HashProve/HashVerify and (every "
         "2nd-4th case) with proof.DeniableProver among 2-3 participants over a harness clique context whose router alters participant 0's messages, "
+        "and with the clique transport failing for every participant from round 1, 2 or 3 on (trees with <= 3 / 4 terms, honest and falsified provers), "
         "on Ed25519, P-256 and BN256 G1; the real proof length must equal the item list the specification derives; distinct = (suite, behaviour, mode)",
         ASSUME_CASES + [
             "every public point is defined from the model's secrets, so branch truth is decided by the model; a falsified point is an unrelated random point",
